@@ -509,7 +509,7 @@ def strategy(tier):
 
 
 def budget(tier):
-    return 250 if tier == "quick" else 5000
+    return 250 if tier == "quick" else 15000
 
 
 def explicit(tier, seed):
